@@ -70,9 +70,18 @@ type VNode struct {
 	Reqs    []VMod `json:"reqs"`
 }
 
+// VPseudo: a module at a pseudo-version, i.e. project directory Base as of revision Rev (1-based). What it declares
+// is, by intention, what that directory's dawn.toml says at that revision (u.snapshot(Rev, Base)).
+type VPseudo struct {
+	Base    string `json:"base"`
+	Version string `json:"version"`
+	Rev     int    `json:"rev"`
+}
+
 type VUniverse struct {
 	Repo       string         `json:"repo"`
 	Nodes      []VNode        `json:"nodes"`
+	Pseudo     []VPseudo      `json:"pseudo,omitempty"`
 	Refs       map[string]int `json:"refs"` // branch → revision number (1-based)
 	DefaultRef string         `json:"default_ref"`
 }
@@ -88,6 +97,28 @@ type VCase struct {
 
 func (u *VUniverse) nodePath(n *VNode) string {
 	return project.JoinPathVersion(path.Join(u.Repo, n.Base), semver.Major(n.Version))
+}
+
+// the pseudo-version modules of the universe with the node that defines them (the INTENDED content: the directory Base
+// at revision Rev), keyed by (path, version)
+func (u *VUniverse) pseudoNodes() map[VMod]*VNode {
+	out := map[VMod]*VNode{}
+	for _, p := range u.Pseudo {
+		if n := u.snapshot(p.Rev, p.Base); n != nil {
+			out[VMod{project.JoinPathVersion(path.Join(u.Repo, p.Base), semver.Major(p.Version)), p.Version}] = n
+		}
+	}
+	return out
+}
+
+// the pseudo-version string module.PseudoVersion would give revision rev on top of the tagged version `older`
+func vPseudoVersion(older string, rev int) string {
+	ts := time.Unix(100*int64(rev), 0).UTC().Format("20060102150405")
+	if semver.Prerelease(older) != "" {
+		return fmt.Sprintf("%s.0.%s-%d", older, ts, rev)
+	}
+	pv, _ := refParse(older)
+	return fmt.Sprintf("v%d.%d.%d-0.%s-%d", pv.maj, pv.min, pv.pat+1, ts, rev)
 }
 
 // ------------------------------------------------------------------------------------------------ fake VCS
@@ -383,6 +414,9 @@ func refGraphOf(u *VUniverse, extra map[VMod][]VMod) *refGraph {
 	for i := range u.Nodes {
 		n := &u.Nodes[i]
 		g.req[VMod{u.nodePath(n), n.Version}] = n.Reqs
+	}
+	for k, n := range u.pseudoNodes() {
+		g.req[k] = n.Reqs // what the directory declares at that revision — not what a resolver happens to fetch
 	}
 	for k, v := range extra {
 		g.req[k] = v
@@ -759,6 +793,33 @@ func observeRefs(s *vSession, res *Resolver, qpath string) ([]string, map[VMod]*
 var vPre = []string{"-rc.1", "-alpha", "-beta.2", "-rc.2", "-0.3", "-alpha.1"}
 var vNames = []string{"", "", "lib", "core", "lib"}
 
+// version sets in which the order of the STRINGS and the order of the VERSIONS disagree: the first two of every pool have
+// the same length and sort the other way round as text (a digit boundary moves: 9 → 10 in the minor, patch or a numeric
+// prerelease identifier); the rest are neighbours of other lengths
+var vBoundaryPools = [][]string{
+	{"v1.9.10", "v1.10.0", "v1.10.2", "v1.2.10", "v1.9.9", "v1.10.10", "v1.9.11"},
+	{"v1.2.10", "v1.10.2", "v1.2.9", "v1.10.0", "v1.3.0", "v1.11.0"},
+	{"v1.2.0-9.ab", "v1.2.0-10.a", "v1.2.0-rc.9", "v1.2.0-rc.10", "v1.2.0-rc.11", "v1.2.0", "v1.1.0"},
+	{"v2.9.10", "v2.10.0", "v2.10.9", "v2.9.99", "v2.0.0", "v2.100.0"},
+	{"v0.9.10", "v0.10.0", "v1.0.0", "v0.10.10", "v0.2.0"},
+	{"v1.0.9-rc.10", "v1.0.10-rc.1", "v1.0.9", "v1.0.10", "v1.0.9-rc.9"},
+	{"v1.19.0", "v1.2.10", "v1.20.0", "v1.9.0", "v1.100.0"},
+	{"v3.0.19", "v3.0.20", "v3.0.9", "v3.0.100", "v3.1.0"},
+}
+
+// two tagged versions of the group that have the same length and whose text order differs from their version order
+func confusingPair(u *VUniverse, g genGroup) (string, string, bool) {
+	for _, i := range g.nodes {
+		for _, j := range g.nodes {
+			a, b := u.Nodes[i].Version, u.Nodes[j].Version
+			if len(a) == len(b) && refCmp(a, b) < 0 && strings.Compare(a, b) > 0 {
+				return a, b, true
+			}
+		}
+	}
+	return "", "", false
+}
+
 type genGroup struct {
 	path  string
 	nodes []int // indices into u.Nodes, ascending version
@@ -778,9 +839,38 @@ func genUniverse(r *vRng) (VUniverse, []genGroup) {
 		if r.chance(1, 8) {
 			base = "lib/" + base
 		}
+		if p == 0 && r.chance(1, 5) {
+			base = "" // the project at the root of the repository (tags without a directory prefix)
+		}
 		name := vPick(r, vNames)
 		if r.chance(1, 3) {
 			name = "n" + strconv.Itoa(p)
+		}
+		if r.chance(3, 10) {
+			// multi-digit components around a digit boundary
+			pool := vPick(r, vBoundaryPools)
+			take := map[string]bool{pool[0]: true, pool[1]: true}
+			for k := r.below(4); k > 0; k-- {
+				take[vPick(r, pool)] = true
+			}
+			for _, v := range pool {
+				if !take[v] {
+					continue
+				}
+				pth := project.JoinPathVersion(path.Join(u.Repo, base), semver.Major(v))
+				gi := -1
+				for i := range groups {
+					if groups[i].path == pth {
+						gi = i
+					}
+				}
+				if gi == -1 {
+					groups = append(groups, genGroup{path: pth})
+					gi = len(groups) - 1
+				}
+				pend = append(pend, pending{base, v, name, gi})
+			}
+			continue
 		}
 		var majors []int
 		switch r.below(10) {
@@ -935,6 +1025,70 @@ func genUniverse(r *vRng) (VUniverse, []genGroup) {
 			bn.Reqs = append(bn.Reqs, VMod{a.path, u.Nodes[vPick(r, a.nodes)].Version}) // cycle
 		}
 	}
+	// diamonds that demand a pair of versions whose text order is the wrong one: x → y, z ; y → d@a ; z → d@b
+	for _, d := range groups {
+		a, b, ok := confusingPair(&u, d)
+		if !ok || len(groups) < 3 || !r.chance(2, 3) {
+			continue
+		}
+		var others []genGroup
+		for _, g := range groups {
+			if g.path != d.path {
+				others = append(others, g)
+			}
+		}
+		x, y, z := others[r.below(len(others))], others[r.below(len(others))], others[r.below(len(others))]
+		xn := &u.Nodes[vPick(r, x.nodes)]
+		yn := &u.Nodes[vPick(r, y.nodes)]
+		zn := &u.Nodes[vPick(r, z.nodes)]
+		if r.chance(1, 2) {
+			a, b = b, a
+		}
+		yn.Reqs = append(yn.Reqs, VMod{d.path, a})
+		zn.Reqs = append(zn.Reqs, VMod{d.path, b})
+		if y.path != x.path {
+			xn.Reqs = append(xn.Reqs, VMod{y.path, yn.Version})
+		}
+		if z.path != x.path {
+			xn.Reqs = append(xn.Reqs, VMod{z.path, zn.Version})
+		}
+	}
+	// requirements at pseudo-versions: a project directory as of some revision of the (one) repository, required by
+	// tagged versions of sibling projects — the directory is then found through the repository cache of the resolver
+	if r.chance(1, 2) {
+		for k := 1 + r.below(3); k > 0; k-- {
+			rev := 1 + r.below(len(u.Nodes))
+			// a directory that exists at that revision
+			var bases []string
+			seenB := map[string]bool{}
+			for i := 0; i < rev; i++ {
+				if !seenB[u.Nodes[i].Base] {
+					seenB[u.Nodes[i].Base] = true
+					bases = append(bases, u.Nodes[i].Base)
+				}
+			}
+			b := vPick(r, bases)
+			sn := u.snapshot(rev, b)
+			pv := VPseudo{Base: b, Version: vPseudoVersion(sn.Version, rev), Rev: rev}
+			dup := false
+			for _, q := range u.Pseudo {
+				if q == pv {
+					dup = true
+				}
+			}
+			if dup {
+				continue
+			}
+			u.Pseudo = append(u.Pseudo, pv)
+			pm := VMod{project.JoinPathVersion(path.Join(u.Repo, b), semver.Major(pv.Version)), pv.Version}
+			for e := 1 + r.below(2); e > 0; e-- {
+				from := &u.Nodes[r.below(len(u.Nodes))]
+				if from.Base != b {
+					from.Reqs = append(from.Reqs, pm)
+				}
+			}
+		}
+	}
 	// a requirement the resolver cannot fetch, rarely
 	if r.chance(1, 40) {
 		n := &u.Nodes[r.below(len(u.Nodes))]
@@ -980,6 +1134,20 @@ func genRoot(r *vRng, u *VUniverse, groups []genGroup) map[string]VMod {
 			name = name + "_" + strconv.Itoa(i)
 		}
 		root[name] = VMod{g.path, n.Version}
+	}
+	// a pseudo-version required directly by the project file
+	if len(u.Pseudo) > 0 && r.chance(1, 3) {
+		pv := vPick(r, u.Pseudo)
+		root["ps"+strconv.Itoa(pv.Rev)] = VMod{project.JoinPathVersion(path.Join(u.Repo, pv.Base), semver.Major(pv.Version)), pv.Version}
+	}
+	// a confusing pair demanded by the project file itself, under two names
+	if r.chance(1, 5) {
+		for _, g := range groups {
+			if a, b, ok := confusingPair(u, g); ok {
+				root["lo"], root["hi"] = VMod{g.path, a}, VMod{g.path, b}
+				break
+			}
+		}
 	}
 	// two names for one path
 	if len(root) > 0 && r.chance(1, 6) {
@@ -1128,7 +1296,7 @@ func runCase(c *VCase) *caseOut {
 
 	// ---- parameters of the model that are observed on the code: what refs resolve to
 	var refs []string
-	extraNodes := map[VMod]*VNode{}
+	extraNodes := c.U.pseudoNodes()
 	seenQ := map[string]bool{}
 	for _, op := range c.Ops {
 		if strings.HasPrefix(op, "get:") {
@@ -1220,6 +1388,35 @@ func judgeBL(o *caseOut, c *VCase, s *vSession, g *refGraph, root map[string]VMo
 			o.violation(c, "bl-root-entry", "the root entry is missing from the map", step, "")
 		}
 		o.stat(fmt.Sprintf("bl-size:%d", len(want)))
+		// input distribution: pseudo-versions selected, digit-boundary pairs demanded
+		for _, v := range want {
+			if module.IsPseudoVersion(v) {
+				o.stat("bl-selects-pseudo-version")
+				break
+			}
+		}
+		if seen, _ := g.reach(rootMods(root)); true {
+			byPath := map[string][]string{}
+			for m := range seen {
+				byPath[m.Path] = append(byPath[m.Path], m.Version)
+				if module.IsPseudoVersion(m.Version) {
+					o.stat("bl-reaches-pseudo-version")
+				}
+			}
+			confusing := false
+			for _, vs := range byPath {
+				for _, a := range vs {
+					for _, b := range vs {
+						if len(a) == len(b) && refCmp(a, b) < 0 && strings.Compare(a, b) > 0 {
+							confusing = true
+						}
+					}
+				}
+			}
+			if confusing {
+				o.stat("bl-demands-digit-boundary-pair")
+			}
+		}
 	}
 	// each once, on the list the third-party algorithm returns
 	raw := runRawBL(s.resolver("mem"), root)
@@ -1490,7 +1687,11 @@ func semverLines(r *vRng, n int) []string {
 		"v1.2.3-1", "v1.2.3-2", "v1.2.3-10", "v1.2.3-a-b", "v1.2.3-0.19700101000140-3", "v1.2.4-0.19700101000140-3", "v1.0.0-19700101000140-3",
 		"v01.2.3", "v1.02.3", "v1.2.03", "v1.2.3-01", "v1.2.3-", "v1.2.3-a..b", "v1.2.3+meta", "v1.2.3-rc.1+meta", "v1.2+meta", "1.2.3", "", "none",
 		"v1.2.3.4", "v1.2.x", "v10.20.30", "v2.0.0", "v1.10.0", "v1.9.0", "v1.2.3-rc", "v1.2.3-RC", "v1.2.3-0", "v1.2.3-00", "v1.2.3-0a", "v1..3", "v", "v1.",
-		"v1.2.3-é", "v1.2.3+", "v1.2.3-a+b+c", "v1.2.3--", "v1.2.3-a_b"}
+		"v1.2.3-é", "v1.2.3+", "v1.2.3-a+b+c", "v1.2.3--", "v1.2.3-a_b",
+		// equal-length strings whose text order is not their version order
+		"v1.9.10", "v1.10.0", "v1.2.10", "v1.10.2", "v10.0.0", "v9.0.10", "v9.10.0", "v1.19.0", "v1.20.0", "v1.0.100", "v1.100.0",
+		"v1.2.3-rc.9", "v1.2.3-rc.11", "v1.2.3-9.ab", "v1.2.3-10.a", "v1.0.9-rc.10", "v1.0.10-rc.1", "v1.2.3-9", "v1.2.3-99", "v1.2.3-100",
+		"v1.2.3-0.19700101000140-9", "v1.2.3-0.19700101000140-10", "v1.2.4-0.19700101001640-10"}
 	var out []string
 	emit := func(s string) {
 		ans := "invalid"
@@ -1502,9 +1703,22 @@ func semverLines(r *vRng, n int) []string {
 	for _, a := range atoms {
 		emit(a)
 	}
+	// dawn's own comparison (reqs.go cmpVersion) against the reference order, on canonical versions and the two sentinels
+	judge := func(a, b string) {
+		canon := func(x string) bool { return x == "" || x == "none" || (semver.IsValid(x) && semver.Canonical(x) == x) }
+		if !canon(a) || !canon(b) {
+			return
+		}
+		if got, want := cmpVersion(a, b), refCmp(a, b); got != want {
+			in, _ := json.Marshal(map[string]any{"semver_pair": []string{a, b}})
+			out = append(out, "V\t"+fmt.Sprintf(`{"prop":"C10","kind":"cmpVersion-wrong-order","detail":%q,"step":0,"input":%s}`,
+				fmt.Sprintf("cmpVersion(%q, %q) = %d, version precedence says %d", a, b, got, want), in))
+		}
+	}
 	for _, a := range atoms {
 		for _, b := range atoms {
 			out = append(out, fmt.Sprintf("C\tmvs.semver\tcmp %s %s\t%d %d", vhex(a), vhex(b), semver.Compare(a, b), cmpVersion(a, b)))
+			judge(a, b)
 		}
 	}
 	gen := func() string {
@@ -1516,6 +1730,8 @@ func semverLines(r *vRng, n int) []string {
 				b.WriteString("0")
 			case 1:
 				b.WriteString("01")
+			case 2:
+				b.WriteString(vPick(r, []string{"9", "10", "19", "20", "99", "100", "11"}))
 			default:
 				b.WriteString(strconv.Itoa(r.below(12)))
 			}
@@ -1536,7 +1752,7 @@ func semverLines(r *vRng, n int) []string {
 				if i > 0 {
 					b.WriteString(".")
 				}
-				b.WriteString(vPick(r, []string{"0", "1", "2", "10", "a", "b", "rc", "alpha", "a-1", "00", "0a", "", "9"}))
+				b.WriteString(vPick(r, []string{"0", "1", "2", "10", "a", "b", "rc", "alpha", "a-1", "00", "0a", "", "9", "11", "99", "100", "9a"}))
 			}
 		}
 		if r.chance(1, 8) {
@@ -1546,7 +1762,13 @@ func semverLines(r *vRng, n int) []string {
 	}
 	for i := 0; i < n; i++ {
 		a, b := gen(), gen()
+		if r.chance(1, 3) {
+			// same shape, one component bumped across a digit boundary
+			b = strings.Replace(a, vPick(r, []string{"9", "1", "2", "0"}), vPick(r, []string{"10", "9", "19", "2"}), 1)
+		}
 		emit(a)
+		judge(a, b)
+		judge(b, a)
 		out = append(out, fmt.Sprintf("C\tmvs.semver\tcmp %s %s\t%d %d", vhex(a), vhex(b), semver.Compare(a, b), cmpVersion(a, b)))
 		// the reference order used by the judge agrees with the library on canonical versions
 		if semver.IsValid(a) && semver.IsValid(b) && semver.Canonical(a) == a && semver.Canonical(b) == b {
@@ -1600,6 +1822,28 @@ func directedCases(prop string) []*VCase {
 				{Base: "b", Version: "v1.0.0", Reqs: []VMod{{P("d"), "v1.0.0"}, {P("d") + "@v2", "v2.0.0"}}}, {Base: "c", Version: "v1.0.0", Reqs: []VMod{{P("d"), "v1.1.0"}}},
 				{Base: "a", Version: "v1.0.0", Reqs: []VMod{{P("b"), "v1.0.0"}, {P("c"), "v1.0.0"}}}, {Base: "a", Version: "v1.1.0-rc.1"}}},
 			Root: map[string]VMod{"a": {P("a"), "v1.0.0"}}, Ops: []string{"bl"}})
+		// a diamond on versions whose text order is the wrong one: v1.9.10 < v1.10.0 and v1.2.10 < v1.10.2
+		out = append(out, &VCase{Prop: prop, Cache: "cold", Perm: 11, U: VUniverse{Repo: repo, DefaultRef: "main", Refs: map[string]int{"main": 8},
+			Nodes: []VNode{{Base: "d", Version: "v1.9.10"}, {Base: "d", Version: "v1.10.0"}, {Base: "e", Version: "v1.2.10"}, {Base: "e", Version: "v1.10.2"},
+				{Base: "e", Version: "v1.2.0-9.ab"}, {Base: "b", Version: "v1.0.0", Reqs: []VMod{{P("d"), "v1.10.0"}, {P("e"), "v1.2.10"}}},
+				{Base: "c", Version: "v1.0.0", Reqs: []VMod{{P("d"), "v1.9.10"}, {P("e"), "v1.10.2"}}},
+				{Base: "a", Version: "v1.0.0", Reqs: []VMod{{P("b"), "v1.0.0"}, {P("c"), "v1.0.0"}}}}},
+			Root: map[string]VMod{"a": {P("a"), "v1.0.0"}}, Ops: []string{"bl"}})
+		// several projects in one repository, one required at a pseudo-version after a sibling has been looked up:
+		// app (tagged) → lib as of revision 4, whose dawn.toml requires tool; the sibling directories exist at that revision
+		multi := VUniverse{Repo: repo, DefaultRef: "main", Refs: map[string]int{"main": 5},
+			Nodes: []VNode{{Base: "app", Version: "v0.9.0"}, {Base: "lib", Version: "v1.0.0"}, {Base: "tool", Version: "v1.0.0"},
+				{Base: "lib", Version: "v1.1.0", Reqs: []VMod{{P("tool"), "v1.0.0"}}},
+				{Base: "app", Version: "v1.0.0", Reqs: []VMod{{P("lib"), vPseudoVersion("v1.1.0", 4)}}},
+				{Base: "", Version: "v1.0.0", Name: "rootproj", Reqs: []VMod{{P("lib"), vPseudoVersion("v1.1.0", 4)}}}},
+			Pseudo: []VPseudo{{Base: "lib", Version: vPseudoVersion("v1.1.0", 4), Rev: 4}}}
+		for _, cache := range []string{"cold", "disk", "mem"} {
+			out = append(out, &VCase{Prop: prop, Cache: cache, Perm: 5, U: multi, Root: map[string]VMod{"app": {P("app"), "v1.0.0"}}, Ops: []string{"bl"}})
+			// the other lookup order: the pseudo-version first, then its siblings; and through the repository's root project
+			out = append(out, &VCase{Prop: prop, Cache: cache, Perm: 5, U: multi,
+				Root: map[string]VMod{"a": {P("lib"), vPseudoVersion("v1.1.0", 4)}, "z": {P("app"), "v0.9.0"}}, Ops: []string{"bl"}})
+			out = append(out, &VCase{Prop: prop, Cache: cache, Perm: 5, U: multi, Root: map[string]VMod{"u": {repo, "v1.0.0"}, "tool": {P("tool"), "v1.0.0"}}, Ops: []string{"bl"}})
+		}
 	}
 	return out
 }
@@ -1628,6 +1872,18 @@ func VerifMain(args []string) int {
 	defer w.Flush()
 
 	if *replay != "" {
+		var pair struct {
+			Pair []string `json:"semver_pair"`
+		}
+		if json.Unmarshal([]byte(*replay), &pair) == nil && len(pair.Pair) == 2 {
+			a, b := pair.Pair[0], pair.Pair[1]
+			if got, want := cmpVersion(a, b), refCmp(a, b); got != want {
+				in, _ := json.Marshal(map[string]any{"semver_pair": []string{a, b}})
+				fmt.Fprintln(w, "V\t"+fmt.Sprintf(`{"prop":"C10","kind":"cmpVersion-wrong-order","detail":%q,"step":0,"input":%s}`,
+					fmt.Sprintf("cmpVersion(%q, %q) = %d, version precedence says %d", a, b, got, want), in))
+			}
+			return 0
+		}
 		var c VCase
 		if err := json.Unmarshal([]byte(*replay), &c); err != nil {
 			fmt.Fprintln(os.Stderr, "bad replay:", err)
